@@ -144,6 +144,41 @@ def raw_sha() -> str:
         raw.close()
 
 
+# Synset objects obtained at an earlier observation and kept: [spec, id] -> Synset.  What they
+# report about their ILI must be what a fresh look-up reports (entities are views of the
+# database, not snapshots of it).  Objects of a lexicon that left the database are dropped.
+_held: dict = {}
+_held_db = [None]
+
+
+def held_views(inst) -> list:
+    from harness import wnenv
+    gen = (str(wn.config.database_path), wnenv.DB_GENERATION[0])
+    if _held_db[0] != gen:
+        _held.clear()
+        _held_db[0] = gen
+    for k in [k for k in _held if k[0] not in inst]:
+        del _held[k]
+    rows = []
+
+    def ili_view(y):
+        i = y.ili
+        return ['~', '~', '~'] if i is None else [i.id or '~', i.status, i.definition() if i.definition() is not None else '~']
+    try:
+        for spec in inst:
+            fresh = {y.id: y for y in wn.Wordnet(spec, expand='').synsets()}
+            for yid, y in fresh.items():
+                old = _held.get((spec, yid))
+                if old is not None:
+                    rows.append([spec, yid, ili_view(old), ili_view(y)])
+                else:
+                    y.ili                     # looked at once, then kept
+                    _held[(spec, yid)] = y
+    except Exception as e:   # noqa: BLE001
+        rows.append(['!' + type(e).__name__, '~', [], ['~']])
+    return rows
+
+
 def observe(own_extras: dict | None = None) -> dict:
     """The abstract state of the database plus audits and digests."""
     conn()   # make sure the file exists
@@ -236,7 +271,8 @@ def observe(own_extras: dict | None = None) -> dict:
                 by_id.append([i_, 'err', '~', '~', '~'])
     except Exception as e:   # noqa: BLE001
         by_id = [['!' + type(e).__name__, 'exc', '~', '~', '~']]
-    return {'api_ilis': api_ilis, 'ilis_by_status': by_status, 'ilis_by_id': by_id, 'inst': inst, 'ilis': ilis, 'look': look, 'links': sorted(links),
+    return {'api_ilis': api_ilis, 'ilis_by_status': by_status, 'ilis_by_id': by_id, 'held': held_views(inst),
+            'inst': inst, 'ilis': ilis, 'look': look, 'links': sorted(links),
             'exts': sorted(exts), 'foreign': foreign, 'digests': digests,
             'api': sorted(api),
             'audit': {'fk': fk, 'integrity': integ, 'dangling': cd['dangling'],
